@@ -180,6 +180,15 @@ def check_model(case):
         if not same_array(np.asarray(b[nm]), np.asarray(m[nm])):
             res.fail('from_dataframe/values', f'{detail}: {nm} = {np.asarray(b[nm]).tolist()}, original {np.asarray(m[nm]).tolist()}')
             break
+    # a table with the rows of the span and no data column at all (a model none of whose variables is exported, or a
+    # selection of no columns): the span is still reproduced, the variables keep their defaults
+    none = attempt(M.from_dataframe, df[[]])
+    if not none.ok:
+        res.fail(f'from_dataframe/no-columns/raised-{none.exc_name}/{case["span"]["k"]}', f'{detail}: {none!r}')
+    else:
+        got0 = list(none.value.span)
+        if len(got0) != len(labels) or any(spans.pos([x], y) != 0 for x, y in zip(got0, labels)):
+            res.fail(f'from_dataframe/no-columns/span/{case["span"]["k"]}', f'{detail}: span {got0!r}, original {labels!r}')
     # the whole table (extra variables included) under strict=True: the import is either refused, or nothing is lost -
     # never a model that silently lacks some of the columns
     extra_cols = [c for c in df.columns if c not in M.NAMES]
@@ -349,7 +358,10 @@ def strat_model():
     from hypothesis import strategies as st
     descs = spans.catalogue(5, min_len=0) + spans.catalogue_long()
     return st.fixed_dictionaries({
-        'prog': G.programs(max_statements=3, max_leaves=4, named_periods=False, blocks=False, big_offsets=False, max_offset=2),
+        'prog': st.one_of(G.programs(max_statements=3, max_leaves=4, named_periods=False, blocks=False, big_offsets=False, max_offset=2),
+                          G.programs(max_statements=3, max_leaves=4, named_periods=False, blocks=False, big_offsets=False, max_offset=2),
+                          G.programs(max_statements=3, max_leaves=4, named_periods=False, blocks=False, big_offsets=False, max_offset=2),
+                          st.just([])),           # ... and the model without any variable
         'span': st.sampled_from(descs),
         'extras': st.lists(st.integers(0, len(EXTRAS) - 1), max_size=6),
         'solved': st.integers(0, 2),
